@@ -30,6 +30,8 @@ pub struct ConvOpts {
     pub require_equals: bool,
     pub last_positional: bool,
     pub typed_parsers: bool,
+    /// the `<files>... <target>` layout (multi-value positional before a required final one)
+    pub low_index_multi: bool,
 }
 
 impl Default for ConvOpts {
@@ -48,6 +50,7 @@ impl Default for ConvOpts {
             require_equals: true,
             last_positional: true,
             typed_parsers: false,
+            low_index_multi: true,
         }
     }
 }
@@ -116,6 +119,7 @@ fn conv_level(t: &mut Tape<'_>, o: &ConvOpts, depth: usize, name: &str) -> CmdSp
         if a.short.is_none() && a.long.is_none() {
             continue;
         }
+        a.hide = t.chance(1, 5);
         c.args.push(a);
     }
     // options
@@ -159,10 +163,36 @@ fn conv_level(t: &mut Tape<'_>, o: &ConvOpts, depth: usize, name: &str) -> CmdSp
         if o.overrides && t.chance(1, 4) {
             a.overrides_with.push(a.id.clone());
         }
+        a.hide = t.chance(1, 5);
         c.args.push(a);
     }
-    // positionals: singles, then maybe a multi / last
-    let nsingle = t.weighted(&[4, 3, 2, 1]);
+    // positionals: singles, then maybe a multi / last; or `<files>... <target>`
+    let low_index_multi = o.low_index_multi && t.chance(1, 6);
+    if low_index_multi {
+        if t.bool() {
+            c.args.push(ArgSpec {
+                id: next_id(),
+                action: Action::Set,
+                required: true,
+                ..Default::default()
+            });
+        }
+        let mut m = ArgSpec {
+            id: next_id(),
+            action: if o.append_positionals && t.chance(1, 3) { Action::Append } else { Action::Set },
+            required: true,
+            ..Default::default()
+        };
+        m.num_args = Some((1, usize::MAX));
+        c.args.push(m);
+        c.args.push(ArgSpec {
+            id: next_id(),
+            action: Action::Set,
+            required: true,
+            ..Default::default()
+        });
+    }
+    let nsingle = if low_index_multi { 0 } else { t.weighted(&[4, 3, 2, 1]) };
     let nreq = if nsingle > 0 { t.range(0, nsingle) } else { 0 };
     for k in 0..nsingle {
         let mut a = ArgSpec {
@@ -179,7 +209,7 @@ fn conv_level(t: &mut Tape<'_>, o: &ConvOpts, depth: usize, name: &str) -> CmdSp
         }
         c.args.push(a);
     }
-    if t.chance(1, 2) {
+    if !low_index_multi && t.chance(1, 2) {
         let mut a = ArgSpec {
             id: next_id(),
             action: if o.append_positionals && t.chance(1, 3) { Action::Append } else { Action::Set },
@@ -455,7 +485,12 @@ pub fn gen_invocation(t: &mut Tape<'_>, spec: &CmdSpec, io: &InvOpts) -> Invocat
         let has_last = pos.iter().any(|p| p.last);
         let fillable = pos.iter().filter(|p| !p.last).count();
         let k = if fillable == 0 { 0 } else { t.range(nreq, fillable) };
-        let use_escape = io.escape && (t.chance(1, 4) || (has_last && t.chance(1, 2)));
+        let low_index_layout_spec = pos.len() >= 2
+            && pos[pos.len() - 2].value_range().1 > 1
+            && !pos[pos.len() - 1].last
+            && pos[pos.len() - 1].value_range().1 == 1;
+        // (`files... target --` would hide the end of the line from the look-ahead that picks the target)
+        let use_escape = io.escape && !low_index_layout_spec && (t.chance(1, 4) || (has_last && t.chance(1, 2)));
         let mut before: Vec<Occ> = Vec::new(); // positional occurrences in index order
         let mut after: Vec<Occ> = Vec::new();
         // where (in positional order) the escape marker goes
@@ -521,6 +556,37 @@ pub fn gen_invocation(t: &mut Tape<'_>, spec: &CmdSpec, io: &InvOpts) -> Invocat
             let at = t.range(0, occs.len());
             occs.insert(at, f);
         }
+        // `<files>... <target>`: which value is the target is decided by looking at the token after
+        // it, so the positional run has to stay contiguous (and a single occurrence each)
+        let npos_spec = pos.len();
+        let low_index_layout = npos_spec >= 2
+            && pos[npos_spec - 2].value_range().1 > 1
+            && !pos[npos_spec - 1].last
+            && pos[npos_spec - 1].value_range().1 == 1;
+        if low_index_layout {
+            let multi_id = pos[npos_spec - 2].id.clone();
+            let last_id = pos[npos_spec - 1].id.clone();
+            let first = occs.iter().position(|o| matches!(o, Occ::Pos { arg, .. } if *arg == multi_id));
+            let lastp = occs.iter().rposition(|o| matches!(o, Occ::Pos { arg, .. } if *arg == last_id));
+            if let (Some(f), Some(l)) = (first, lastp) {
+                if f < l {
+                    let mut run: Vec<Occ> = Vec::new();
+                    let mut others: Vec<Occ> = Vec::new();
+                    for o in occs.drain(f..=l) {
+                        if matches!(o, Occ::Pos { .. }) {
+                            run.push(o);
+                        } else {
+                            others.push(o);
+                        }
+                    }
+                    let mut rebuilt: Vec<Occ> = occs[..f].to_vec();
+                    rebuilt.extend(others);
+                    rebuilt.extend(run);
+                    rebuilt.extend(occs[f..].iter().cloned());
+                    occs = rebuilt;
+                }
+            }
+        }
         // adjacent occurrences of the same multi positional would merge: keep them apart or merge them
         let mut merged: Vec<Occ> = Vec::new();
         for o in occs {
@@ -573,6 +639,8 @@ pub fn gen_invocation(t: &mut Tape<'_>, spec: &CmdSpec, io: &InvOpts) -> Invocat
 
 #[derive(Default, Clone, Debug)]
 pub struct SpellStats {
+    /// input: do not use --flag / -S forms for subcommands (they are not on C08's list of equivalences)
+    pub no_flag_subcommand_forms: bool,
     pub cluster: bool,
     pub attached: bool,
     pub delim_joined: bool,
@@ -711,11 +779,11 @@ pub fn spell(t: &mut Tape<'_>, spec: &CmdSpec, inv: &Invocation, stats: &mut Spe
                     && level.args.iter().any(|a| {
                         a.long.iter().chain(a.aliases.iter().map(|x| &x.0)).any(|l| l.starts_with(lf.as_str()))
                     });
-                if !shadowed {
+                if !shadowed && !stats.no_flag_subcommand_forms {
                     forms.push(3);
                 }
             }
-            if sc.short_flag.is_some() {
+            if sc.short_flag.is_some() && !stats.no_flag_subcommand_forms {
                 forms.push(4);
                 if first_is_short_flag {
                     forms.push(5);
@@ -1077,7 +1145,11 @@ pub fn expect(spec: &CmdSpec, inv: &Invocation, cluster_entry: &[bool]) -> Optio
     for (li, lv) in inv.levels.iter().enumerate() {
         let mut el = ExpLevel::default();
         let mut c = if cluster_entry.get(li).copied().unwrap_or(false) { carry + 1 } else { 0 };
+        let mut prev_pos: Option<String> = None; // positional whose occurrence is still open
         for occ in &lv.occs {
+            if !matches!(occ, Occ::Escape | Occ::Pos { .. }) {
+                prev_pos = None;
+            }
             match occ {
                 Occ::Escape => {}
                 Occ::Flag { arg } => {
@@ -1153,15 +1225,23 @@ pub fn expect(spec: &CmdSpec, inv: &Invocation, cluster_entry: &[bool]) -> Optio
                         positional: true,
                         interleaved: false,
                     });
-                    if !e.occurrences.is_empty() {
-                        e.interleaved = true;
-                    }
-                    if a.action == Action::Append || e.occurrences.is_empty() {
-                        e.occurrences.push(values.clone());
+                    let continues = prev_pos.as_deref() == Some(arg.as_str()) && (a.value_range().1 > 1);
+                    if continues {
+                        // the marker does not end a multi-value positional's occurrence
+                        e.occurrences.last_mut()?.extend(values.iter().cloned());
                         e.indices.extend(idx);
                     } else {
-                        return None;
+                        if !e.occurrences.is_empty() {
+                            e.interleaved = true;
+                        }
+                        if a.action == Action::Append || e.occurrences.is_empty() {
+                            e.occurrences.push(values.clone());
+                            e.indices.extend(idx);
+                        } else {
+                            return None;
+                        }
                     }
+                    prev_pos = Some(arg.clone());
                 }
             }
         }
